@@ -226,9 +226,11 @@ func (ch *CloudHandler) prepareMetricQueue(source gostatsd.Source) *gostatsd.Met
 		return queue
 	}
 	if len(ch.awaitingEvents[source]) == 0 {
+		// Nothing is waiting for this source yet, so no lookup has been requested for it.
 		ch.toLookupIPs = append(ch.toLookupIPs, source)
-		ch.statsMetricHostsQueued++
 	}
+	// The host now has a metric queue; handleInstanceInfo decrements when it is released.
+	ch.statsMetricHostsQueued++
 	queue := gostatsd.NewMetricMap(false)
 	ch.awaitingMetrics[source] = queue
 	return queue
@@ -252,10 +254,13 @@ func (ch *CloudHandler) handleIncomingMetrics(mm *gostatsd.MetricMap) {
 func (ch *CloudHandler) handleIncomingEvent(e *gostatsd.Event) {
 	queue := ch.awaitingEvents[e.Source]
 	ch.awaitingEvents[e.Source] = append(queue, e)
-	if len(queue) == 0 && ch.awaitingMetrics[e.Source] == nil {
-		// This is the first event for that IP in the queue. Need to fetch an Instance for this IP.
-		ch.toLookupIPs = append(ch.toLookupIPs, e.Source)
+	if len(queue) == 0 {
+		// This is the first event for that IP in the queue; handleInstanceInfo decrements when it is released.
 		ch.statsEventHostsQueued++
+		if ch.awaitingMetrics[e.Source] == nil {
+			// Nothing is waiting for this IP yet. Need to fetch an Instance for this IP.
+			ch.toLookupIPs = append(ch.toLookupIPs, e.Source)
+		}
 	}
 	ch.statsEventItemsQueued++
 }
